@@ -39,6 +39,7 @@ fn main() {
 		only_type: arg(&args, "--type"),
 		replay: arg(&args, "--replay"),
 		mode: arg(&args, "--mode").unwrap_or_default(),
+		values: arg(&args, "--values").map(|s| s.parse().unwrap()),
 	};
 	// expected panics (caught by the monitors) should not flood stderr
 	if std::env::var("VERIF_VERBOSE_PANICS").is_err() {
@@ -93,7 +94,7 @@ fn main() {
 			let mut rep = monitor::report::Report::new("C05");
 			let types: Vec<monitor::ops::TypeOps> = ctx.my_types().into_iter().filter(|o| o.has_tag("derived")).cloned().collect();
 			let defs: Vec<&str> = types.iter().map(|o| o.name).collect();
-			let args = monitor::suite::SuiteArgs { prop: "C05".into(), seed: ctx.seed, values: ctx.budget(300, 6000), out: ctx.out.clone() };
+			let args = monitor::suite::SuiteArgs { prop: "C05".into(), seed: ctx.seed, values: ctx.budget(2000, 30_000), out: ctx.out.clone() };
 			monitor::suite::run_types(&mut rep, &types, &defs, &args);
 			common::finish(&ctx, &rep);
 		},
